@@ -59,3 +59,45 @@ def run(facts, rep):
                         why = "the store read at %s is reachable from the edge on which the overlay HAD an entry (bb%d)" % (rt.get("ln"), sb)
                 rep.check(ok, "S1", short, "fallback=%s" % rt["callee"].rsplit("::", 1)[1], "an overlay hit is not final in %s: %s - a key deleted (or written) in an uncommitted ancestor would be answered from the store" % (short, why), site=rt.get("ln"), detail=why)
     return users, n
+
+
+# ---- S8: stale index entries are skipped, they do not end the view -----------------------------------
+# The overlay index keeps, per key, the sequence number of the overlay that last wrote it; entries of ancestors that have been
+# committed in the meantime (`seqn < min_seqn`) are STALE and must be skipped.  Iteration over the index ends only at the
+# range bound.  Rule: in the methods of LiveOverlay, a closure handed to an adapter that ENDS the iteration (take_while,
+# map_while, scan, skip_while's dual ..) does not consult `min_seqn`; the staleness test belongs in a skipping adapter
+# (filter / filter_map).  A fused `map_while(|..| { ..checked_sub(min_seqn)?.. })` stops at the first stale entry and hides
+# every live change that sorts after it.
+ENDING_ADAPTERS = ("take_while", "map_while", "scan", "try_for_each", "try_fold", "find_map", "position")
+
+
+def s8(facts, rep):
+    n = 0
+    seen = 0
+    for body in facts.bodies.values():
+        if body.crate != "nomt" or not body.id.startswith("nomt::overlay::LiveOverlay::") or "::tests::" in body.id:
+            continue
+        for b, t in body.calls():
+            c = t.get("callee") or ""
+            m = c.rsplit("::", 1)[-1]
+            if "iter" not in c.lower() or m not in ENDING_ADAPTERS:
+                continue
+            for a in t["args"][1:]:
+                for r in trace(body, a):
+                    if r.kind == "agg" and r.obj is not None and r.obj.get("ak") == "closure" and r.obj.get("name") in facts.bodies:
+                        cb = facts.bodies[r.obj["name"]]
+                        seen += 1
+                        n += 1
+                        reads = False
+                        for bb in range(cb.n):
+                            for s_ in cb.stmts(bb):
+                                if s_["k"] == "assign" and "min_seqn" in repr(s_["rv"]):
+                                    reads = True
+                            tt = cb.term(bb)
+                            if tt["k"] == "call" and any("min_seqn" in repr(x) for x in tt["args"]):
+                                reads = True
+                        short = body.id.split("::", 1)[1]
+                        rep.check(not reads, "S8", short, "ending-adapter|%s" % m, "the closure handed to `%s` at %s consults min_seqn: a stale index entry (an ancestor committed in the meantime) ends the iteration instead of being skipped, hiding every live overlay change that sorts after it" % (m, t.get("ln")), site=t.get("ln"), detail="`%s` ends the iteration on the range bound only" % m)
+    n += 1
+    rep.ok("S8", "overlay::LiveOverlay", "ending-adapters", detail="%d closure(s) handed to iteration-ending adapters inspected" % seen)
+    return n
